@@ -251,3 +251,14 @@ package valid
 //@ func (*LRUCache).SetDelCallBackFn
 //@   requires l != nil
 //@   modifies l.deleteCallBackFn
+
+// ---------------------------------------------------------------------------
+// C05: languages of the regular-expression constants (what (*Regexp).MatchString decides;
+// the left side is read from the regexp.MustCompile constant in init.go, the right side is the documented language)
+
+//@ regex [C05 language.PhoneRe]     PhoneRe == `^1[3-9][0-9]{9}$`
+//@ regex [C05 language.IntRe]       IntRe == `^[0-9]+$`
+//@ regex [C05 language.FloatRe]     FloatRe == `^[0-9]+\.[0-9]+$`
+//@ regex [C05 language.IdCardRe]    IdCardRe == `^([0-9]{15}|[0-9]{18}|[0-9]{17}[0-9Xx])$`
+//@ regex [C05 language.EmailRe]     EmailRe == `^[0-9A-Za-z_]+([-+.][0-9A-Za-z_]+)*@[0-9A-Za-z_]+([-.][0-9A-Za-z_]+)*\.[0-9A-Za-z_]+([-.][0-9A-Za-z_]+)*$`
+//@ regex [C05 C15 language.IncludeZhRe] IncludeZhRe == `[\x{4e00}-\x{9fa5}]`
